@@ -760,4 +760,94 @@ def exact_moves(repo: Repo) -> RuleRun:
 
 exact_moves.rule_id = "C12.EXACT-MOVES"
 
-RULES = [clear_complete, grade_idempotent, lockstep_filter, backport_map, delete_skip, assemble_walk, backport_owns_points, no_class_state, no_stale_lazy_cache, empty_patch, neighbour_untouched, exact_moves]
+def grade_replay(repo: Repo) -> RuleRun:
+    """'... writing the same mesh a second time produces the same file': the second grading pass must repeat the first, so it has
+    to start where the first one started - no wire carries a grading of the previous pass and no manager that collects copies
+    of its neighbours' chops still holds them WHEN THE FIRST BLOCK IS GRADED (a wire left 'defined' is copied from, inverted
+    copies turn the integer 1 into 1.0, and after vertices were moved the stale counts meet the fresh ones in the consistency check).
+    Abstract run of BlockList.grade_blocks (real Block / Axis code; the managers' grade() is the observation point) on two blocks
+    whose managers are in the state a finished pass leaves behind."""
+    from ..peval import NO_MATCH, Evaluator, NotEvaluable, Obj, Raised, Sym
+
+    r = RuleRun(PROP, "C12.GRADE-REPLAY", floor=4, what="a grading pass starts from scratch: before the first block is graded no wire of any block carries a grading of the previous pass and no propagating manager holds copied chops")
+    fn = repo.func("lists.block_list.BlockList.grade_blocks")
+    block_cls, axis_cls, bl_cls = repo.cls("items.block.Block"), repo.cls("items.wires.axis.Axis"), repo.cls("lists.block_list.BlockList")
+    chop_mgr, prop_mgr = repo.cls("items.wires.manager.WireChopManager"), repo.cls("items.wires.manager.WirePropagateManager")
+    blocks, managers = [], []
+    for b in range(2):
+        axes = []
+        for a in range(3):
+            chopped = b == 1 and a == 0 or b == 0 and a == 2
+            mgr = Obj(f"mgr_b{b}a{a}", cls=chop_mgr if chopped else prop_mgr)
+            mgr.set("chops", [Obj(f"{'user' if chopped else 'copied'}-chop_b{b}a{a}")])
+            mgr.set("grading", Obj(f"stale-axis-grading_b{b}a{a}", is_defined=True, length=Sym("old")))
+            wires = []
+            for w in range(4):
+                wire = Obj(f"wire_b{b}a{a}{w}")
+                wire.set("grading", Obj(f"stale-grading_b{b}a{a}{w}", is_defined=True, length=Sym("old")))
+                wire.set("length", Sym(f"len_b{b}a{a}{w}"))
+                wire.set("coincidents", set())
+                wires.append(wire)
+            mgr.set("wires", wires)
+            managers.append((b, a, chopped, mgr))
+            ax = Obj(f"axis_b{b}a{a}", cls=axis_cls)
+            ax.set("index", a)
+            ax.set("wires", mgr)
+            ax.set("neighbours", set())
+            axes.append(ax)
+        blk = Obj(f"block{b}", cls=block_cls)
+        blk.set("axes", axes)
+        blocks.append(blk)
+    bl = Obj("block_list", cls=bl_cls)
+    bl.set("blocks", blocks)
+    snapshot: Dict[str, object] = {}
+    counter = {"n": 0}
+
+    def hook(ev, call: ast.Call, name):
+        f_ = call.func
+        if name == "Grading" or (name or "").endswith(".Grading"):
+            counter["n"] += 1
+            return Obj(f"fresh-grading{counter['n']}", is_defined=False, length=ev.eval(call.args[0]) if call.args else None)
+        if isinstance(f_, ast.Attribute) and f_.attr == "grade":
+            recv = ev.eval(f_.value)
+            if isinstance(recv, Obj) and recv.has("wires") and recv.has("chops"):
+                if "at" not in snapshot:
+                    snapshot["at"] = recv._name
+                    snapshot["wires"] = {w._name: w.get("grading")._name for _b, _a, _c, m in managers for w in m.get("wires")}
+                    snapshot["chops"] = {m._name: [c._name for c in m.get("chops")] for _b, _a, _c, m in managers}
+                return None
+        return NO_MATCH
+
+    try:
+        Evaluator(repo=repo, module=fn.module, call_hook=hook, max_steps=200000).call_funcinfo(fn, [bl])
+    except Raised as err:
+        raise AnalysisError(f"BlockList.grade_blocks raises {err.exc_name} on the model of a finished pass") from err
+    except NotEvaluable as err:
+        raise AnalysisError(f"BlockList.grade_blocks not evaluable on the model of a finished pass: {err}") from err
+    r.require("at" in snapshot, "BlockList.grade_blocks grades no wire manager on the model")
+    for b, a, chopped, mgr in managers:
+        stale = sorted(w for w, g in snapshot["wires"].items() if w.startswith(f"wire_b{b}a{a}") and g.startswith("stale"))
+        kind = "chopped" if chopped else "propagated"
+        r.check(
+            not stale,
+            fn,
+            f"block {b} axis {a} ({kind}): wires start the pass without a grading",
+            f"when the first block is graded ({snapshot['at']}.grade()), the wires of block {b} axis {a} ({kind}) still carry the gradings of the previous pass ({stale[0] if stale else ''}, ...): "
+            "they count as defined, so neighbours copy them (an inverted copy turns the written '1' into '1.0' - the second write() of a stock Cylinder differs from the first) and a propagated "
+            "direction is never re-graded after vertices were moved (stale counts then meet fresh ones: InconsistentGradingsError on a consistent mesh)",
+            fn.node,
+            key=f"wires:b{b}a{a}",
+        )
+        if not chopped:
+            left = snapshot["chops"][mgr._name]
+            r.check(not left, fn, f"block {b} axis {a}: copied chops forgotten", f"the propagating manager of block {b} axis {a} still holds the chops copied in the previous pass ({left}) when the next pass starts: the pass cannot repeat the first one", fn.node, key=f"chops:b{b}a{a}")
+        else:
+            kept = snapshot["chops"][mgr._name]
+            r.check(kept == [f"user-chop_b{b}a{a}"], fn, f"block {b} axis {a}: the user's chops are kept", f"the chopped axis of block {b} loses / changes the user's chops at the start of a pass: {kept}", fn.node, key=f"chops:b{b}a{a}")
+    return r
+
+
+grade_replay.rule_id = "C12.GRADE-REPLAY"
+
+
+RULES = [clear_complete, grade_idempotent, lockstep_filter, backport_map, delete_skip, assemble_walk, backport_owns_points, no_class_state, no_stale_lazy_cache, empty_patch, neighbour_untouched, exact_moves, grade_replay]
